@@ -4,7 +4,7 @@
    class invariant [SInv], all index values i < 2^64, every scalar structure
    with the ordered-field laws. *)
 From Coq Require Import List NArith ZArith Bool.
-From BSpl Require Import Scalar Outcome Support Proofs_Support Instances.
+From BSpl Require Import Scalar Outcome Support Proofs_Support Instances Proofs_SupportGen.
 Import ListNotations.
 Local Open Scope N_scope.
 
@@ -109,6 +109,32 @@ Section C13_index.
   Proof. exact (sup_back_spec s). Qed.
 End C13_index.
 
+(* Second tie (translation): coq/gen/SupportGen.v is regenerated on every run from /repo's Support.h by
+   gen/ast2coq.py (clang JSON AST -> Gallina, size_t as N with explicit wrap-around); the regenerated
+   definitions agree with the hand-written model the theorems above are about. *)
+Theorem C13_generated_definitions_agree :
+    forall (F : Type) (s : support F),
+           SInv s ->
+           SupportGen.G.size (grid_size (sgrid s)) (sstart s) (sstop s) = sup_size s /\
+           SupportGen.G.empty (grid_size (sgrid s)) (sstart s) (sstop s) = sup_is_empty s /\
+           SupportGen.G.containsIntervals (grid_size (sgrid s)) (sstart s) (sstop s) = contains_intervals s /\
+           (forall i : N,
+            (i < W)%N ->
+            SupportGen.G.relativeFromAbsolute (grid_size (sgrid s)) (sstart s) (sstop s) i = rel_from_abs s i) /\
+           (forall i : N,
+            (i < W)%N ->
+            SupportGen.G.intervalIndexFromAbsolute (grid_size (sgrid s)) (sstart s) (sstop s) i =
+            interval_index s i) /\
+           (forall i : N,
+            (i < W)%N ->
+            SupportGen.G.absoluteFromRelative (grid_size (sgrid s)) (sstart s) (sstop s) i = abs_from_rel s i) /\
+           SupportGen.G.numberOfIntervals (grid_size (sgrid s)) (sstart s) (sstop s) = num_intervals s /\
+           SupportGen.G.valid (grid_size (sgrid s)) (sstart s) (sstop s) = sup_valid s /\
+           (forall i : N,
+            (i < W)%N ->
+            SupportGen.G.at_guard (grid_size (sgrid s)) (sstart s) (sstop s) i = (sup_size s <=? i)%N).
+Proof. exact (@support_gen_agrees). Qed.
+
 Print Assumptions C13_union_hull.
 Print Assumptions C13_union_least.
 Print Assumptions C13_inter_mem.
@@ -134,6 +160,7 @@ Print Assumptions C13_view_intervals.
 Print Assumptions C13_view_at.
 Print Assumptions C13_view_front.
 Print Assumptions C13_view_back.
+Print Assumptions C13_generated_definitions_agree.
 
 (* Non-vacuity: the premises are satisfiable by concrete windows (nested,
    point-like, empty) on a rational grid, and the laws compute as stated. *)
